@@ -191,13 +191,13 @@ SRC_TYPES = list("ZBSCIJFDV") + SRC_CLASSES + SRC_ARRAYS
 N_SRC = 24
 OBJ = "Ljava/lang/Object;"
 BODY_POS = {           # method prefix -> (position name, regex on the method's source; group 1 = type text)
-    "loc": ("local", r"^\s+(.+) v0(?:_\d+)? = K\.mk\(\);$"),
-    "cst": ("cast", r"return \(\((.+)\) p0\);"),
-    "iof": ("instanceof", r"return \(p1 instanceof (.+)\);"),
-    "cls": ("const-class", r"return (.+);"),
-    "new": ("new-instance", r"return new (.+)\(\);"),
-    "sta": ("static-field-owner", r"return (.+)\.fld;"),
-    "inv": ("invoke-owner", r"^\s+(.+)\.sm\(\);$"),
+    "loc": ("local", r"^\s+(.*) v0(?:_\d+)? = K\.mk\(\);$"),
+    "cst": ("cast", r"return \(\((.*)\) p0\);"),
+    "iof": ("instanceof", r"return \(p1 instanceof (.*)\);"),
+    "cls": ("const-class", r"return (.*);"),
+    "new": ("new-instance", r"return new (.*)\(\);"),
+    "sta": ("static-field-owner", r"return (.*)\.fld;"),
+    "inv": ("invoke-owner", r"^\s+(.*)\.sm\(\);$"),
 }
 
 
@@ -276,26 +276,26 @@ def source_positions(types):
         if c.get_name() == "Lp/H;":
             for i, t in enumerate(types):
                 if t != "V":
-                    out.append(("field", t, need(r"^    public static (.+) sf%d;$" % i, src, "static field %d" % i).group(1), None, "type"))
-                    out.append(("field", t, need(r"^    private (.+) if%d;$" % i, src, "instance field %d" % i).group(1), None, "type"))
-                    m = need(r"^    public static void par%d\((.+) p0, int p\d+, (.+) p\d+\)$" % i, src, "parameters %d" % i)
+                    out.append(("field", t, need(r"^    public static (.*) sf%d;$" % i, src, "static field %d" % i).group(1), None, "type"))
+                    out.append(("field", t, need(r"^    private (.*) if%d;$" % i, src, "instance field %d" % i).group(1), None, "type"))
+                    m = need(r"^    public static void par%d\((.*) p0, int p\d+, (.*) p\d+\)$" % i, src, "parameters %d" % i)
                     out.append(("param", t, m.group(1), None, "type"))
                     out.append(("param", t, m.group(2), None, "type"))
-                out.append(("return", t, need(r"^    public static (.+) ret%d\(\)$" % i, src, "return type %d" % i).group(1), None, "type"))
+                out.append(("return", t, need(r"^    public static (.*) ret%d\(\)$" % i, src, "return type %d" % i).group(1), None, "type"))
                 for pre, (pos, rx) in BODY_POS.items():
                     text = msrc.get("%s%d" % (pre, i))
                     if text is not None:
                         out.append((pos, t, need(rx, text, "%s %d" % (pos, i)).group(1), None, "type"))
                 text = msrc.get("arr%d" % i)
                 if text is not None:
-                    m = need(r"^\s+(.+) v0(?:_\d+)? = new (.+);$", text, "new-array %d" % i)
+                    m = need(r"^\s+(.*) v0(?:_\d+)? = new (.*);$", text, "new-array %d" % i)
                     out.append(("local", t, m.group(1), None, "type"))
                     out.append(("new-array", t, m.group(2), 3, "type"))
         else:
             t = c.get_name()
             sup, itf = _super_of(t)
-            pk = re.search(r"^package (.+);$", src, re.M)
-            m = need(r"^public class (.+?) extends (.+?) implements (.+) \{$", src, "class header of %s" % t)
+            pk = re.search(r"^package (.*);$", src, re.M)
+            m = need(r"^public class (.*?) extends (.*?) implements (.*) \{$", src, "class header of %s" % t)
             out.append(("class-name", t, (pk.group(1) + "." if pk else "") + m.group(1), None, "qualified-name"))
             out.append(("extends", sup, m.group(2), None, "type"))
             got_itf = m.group(3).split(", ")
@@ -303,7 +303,7 @@ def source_positions(types):
                 raise SourceLayout("class header of %s lists %d interfaces: %r" % (t, len(got_itf), m.group(3)))
             for d, g in zip(itf, got_itf):
                 out.append(("implements", d, g, None, "type"))
-            out.append(("constructor", t, need(r"^    public (.+)\(\)$", src, "constructor of %s" % t).group(1), None, "simple-name"))
+            out.append(("constructor", t, need(r"^    public (.*)\(\)$", src, "constructor of %s" % t).group(1), None, "simple-name"))
     return out
 
 
